@@ -413,7 +413,8 @@ def build_command_set(fields):
 # --------------------------------------------------------------------------
 # DIMSE fragmentation (PS3.8 Annex E)
 # --------------------------------------------------------------------------
-def fragment(command, data, max_len, ctx, cmd_sizes=None, data_sizes=None):
+def fragment(command, data, max_len, ctx, cmd_sizes=None, data_sizes=None, empty_last_cmd=False,
+             empty_last_data=False):
     """Reference fragmenter: list of PDVs {'ctx','data'} (data[0] = control
     header).  max_len bounds the P-DATA-TF variable field when there is one PDV
     per PDU; *_sizes optionally give explicit fragment sizes."""
@@ -435,11 +436,17 @@ def fragment(command, data, max_len, ctx, cmd_sizes=None, data_sizes=None):
 
     pdvs = []
     cparts = cut(command, cmd_sizes)
+    # a sender that streams may close a command set / data set with a fragment that carries the
+    # "last" bit and no payload at all
+    if empty_last_cmd:
+        cparts.append(b'')
     for i, part in enumerate(cparts):
         hdr = 0x01 | (0x02 if i == len(cparts) - 1 else 0)
         pdvs.append({'ctx': ctx, 'data': bytes([hdr]) + part})
     if data:
         dparts = cut(data, data_sizes)
+        if empty_last_data:
+            dparts.append(b'')
         for i, part in enumerate(dparts):
             hdr = 0x00 | (0x02 if i == len(dparts) - 1 else 0)
             pdvs.append({'ctx': ctx, 'data': bytes([hdr]) + part})
